@@ -397,6 +397,7 @@ func (c *Ctx) mapKeys(ks, vs string) (dom, val, ln string) {
 }
 func (c *Ctx) allocKey() string { c.regHeap("ALLOC", "Int"); return "ALLOC" }
 func (c *Ctx) heldKey() string  { c.regHeap("HELD", "(Array Int Bool)"); return "HELD" }
+func (c *Ctx) relKey() string   { c.regHeap("REL", "(Array Int "+bv64+")"); return "REL" }
 
 func (c *Ctx) sortedHeapKeys() []string {
 	var ks []string
@@ -478,6 +479,21 @@ func ite(c, a, b string) string {
 	return "(ite " + c + " " + a + " " + b + ")"
 }
 func eq(a, b string) string             { return "(= " + a + " " + b + ")" }
-func sel(a, i string) string            { return "(select " + a + " " + i + ")" }
-func sto(a, i, v string) string         { return "(store " + a + " " + i + " " + v + ")" }
+// storeDefs remembers, for store terms (and the names defined for them), the index and the stored
+// value, so that select-of-store at the same index is simplified when the term is built. Quantifier
+// patterns then mention the stored value itself rather than an unsimplified (select (store ..)).
+var storeDefs = map[string][2]string{}
+
+func sel(a, i string) string {
+	if d, ok := storeDefs[a]; ok && d[0] == i {
+		return d[1]
+	}
+	return "(select " + a + " " + i + ")"
+}
+
+func sto(a, i, v string) string {
+	t := "(store " + a + " " + i + " " + v + ")"
+	storeDefs[t] = [2]string{i, v}
+	return t
+}
 func app(f string, xs ...string) string { return "(" + f + " " + strings.Join(xs, " ") + ")" }
